@@ -248,6 +248,8 @@ func newRec(c config, scen string, seed int64) *rec {
 	opt := sim.Options{Validators: c.validators, Nodes: c.nodes, PoS: c.pos, EpochLength: c.epoch, SkipLogs: true, RealRun: true}
 	if scen == "posweights" {
 		opt.StakingPeriod = 2 * c.epoch
+		opt.ExtraAccts = 1
+		opt.DelegatorAcct = c.validators + 1 // the extra account plays the delegator (stargate) contract
 	}
 	net := sim.NewNet(opt)
 	r := &rec{net: net, ids: trace.NewInterner("b"), blocks: map[thor.Bytes32]*block.Block{}, rng: rand.New(rand.NewSource(seed)),
@@ -613,6 +615,19 @@ func scenPosWeights(r *rec, blocks int) {
 				Nonce(uint64(r.st.Seed) + uint64(i)).Clause(cl).Build()
 			txs = append(txs, tx.MustSign(t, r.net.Devs[i].PrivateKey))
 		}
+		// delegations with different multipliers: weight no longer equals locked VET (weight = vet x multiplier / 100)
+		if md, ok := builtin.Staker.ABI.MethodByName("addDelegation"); ok {
+			dg := r.net.Opt.DelegatorAcct - 1
+			for k, mult := range []uint8{200, 150} {
+				v := (int(r.st.Seed) + k) % r.net.Opt.Validators
+				data, err := md.EncodeInput(r.net.Devs[v].Address, mult)
+				must(err)
+				cl := tx.NewClause(&builtin.Staker.Address).WithData(data).WithValue(new(big.Int).Mul(unit, big.NewInt(25*int64(k+1))))
+				t := tx.NewBuilder(tx.TypeLegacy).ChainTag(tag).BlockRef(tx.NewBlockRef(ref)).Expiration(100).Gas(1_500_000).
+					Nonce(uint64(r.st.Seed) + 100 + uint64(k)).Clause(cl).Build()
+				txs = append(txs, tx.MustSign(t, r.net.Devs[dg].PrivateKey))
+			}
+		}
 		return txs
 	}
 	// heavy validators first in the participation order after the change
@@ -829,7 +844,77 @@ func scenShortBest(r *rec, _ int) {
 	}
 }
 
-var scenarios = []string{"sync", "async", "async-restart", "byz", "equivocate", "permute", "latesibling", "boundary", "posweights", "doublevote", "stalefork", "stalepack", "shortbest"}
+// scenVoteLater (VIP-220): validator 0 votes on fork B only in an epoch LATER than the most recent justified epoch of
+// fork A, then fork A becomes its best chain and it packs there. Its remembered vote (checkpoint on B, numbered above
+// A's justified checkpoint, quality >= head quality - 1) conflicts with A's justified checkpoint: no COM vote allowed.
+func scenVoteLater(r *rec, _ int) {
+	mintOn := func(parent thor.Bytes32, who int, com bool, skip uint64) *block.Block {
+		p := r.blocks[parent]
+		blk, err := r.net.Mint(parent, who, com, p.Header().Timestamp()+thor.BlockInterval()*(1+skip))
+		if err != nil {
+			return nil
+		}
+		r.noteBlock(blk)
+		return blk
+	}
+	all := func(blk *block.Block) {
+		for i := range r.net.Nodes {
+			r.deliver(i, blk)
+		}
+	}
+	parent := r.net.B0.Header().ID()
+	signers := []int{1, 2, 3, 1, 2, 3, 1, 2} // heights 1..8: epochs 1 and 2 are justified (quality 2)
+	for h, w := range signers {
+		blk := mintOn(parent, w, h+1 >= 6, 0)
+		if blk == nil {
+			return
+		}
+		all(blk)
+		parent = blk.Header().ID()
+	}
+	fork := parent
+	// fork B: light (every block skips slots), epoch 3 justified without validator 0, then validator 0 votes in epoch 4
+	pb := fork
+	for _, w := range []int{1, 2, 3, 1} { // B9..B12
+		blk := mintOn(pb, w, true, 3)
+		if blk == nil {
+			return
+		}
+		all(blk)
+		pb = blk.Header().ID()
+	}
+	if blk := r.propose(0); blk != nil { // B13 by validator 0: its cast is (B12, quality 3)
+		for i := 1; i < len(r.net.Nodes); i++ {
+			r.deliver(i, blk)
+		}
+	}
+	// fork A: heavy (prompt blocks), epoch 3 justified, epoch 4 only started
+	pa := fork
+	for _, w := range []int{2, 3, 1, 2, 3, 2, 3} { // A9..A15: epoch 4 (12..14) has two signers only, not justified
+		blk := mintOn(pa, w, true, 0)
+		if blk == nil {
+			return
+		}
+		all(blk)
+		pa = blk.Header().ID()
+	}
+	// validator 0 now packs on its best (fork A if the fork choice prefers it): the vote rule must say "no COM"
+	if blk := r.propose(0); blk != nil {
+		for i := 1; i < len(r.net.Nodes); i++ {
+			r.deliver(i, blk)
+		}
+	}
+	if r.rng.Intn(2) == 0 {
+		r.restart(0)
+	}
+	if blk := r.propose(0); blk != nil {
+		for i := 1; i < len(r.net.Nodes); i++ {
+			r.deliver(i, blk)
+		}
+	}
+}
+
+var scenarios = []string{"sync", "async", "async-restart", "byz", "equivocate", "permute", "latesibling", "boundary", "posweights", "doublevote", "stalefork", "stalepack", "shortbest", "votelater"}
 
 func runOne(scen string, seed int64, blocks int) ([]trace.Ev, runStat) {
 	rng := rand.New(rand.NewSource(seed))
@@ -870,6 +955,8 @@ func runOne(scen string, seed int64, blocks int) ([]trace.Ev, runStat) {
 		c = config{4, 4, pos, epoch}
 	case "shortbest":
 		c = config{4, 2, false, epoch}
+	case "votelater":
+		c = config{4, 2, pos, 3}
 	default:
 		panic("unknown scenario " + scen)
 	}
@@ -901,6 +988,8 @@ func runOne(scen string, seed int64, blocks int) ([]trace.Ev, runStat) {
 		scenStalePack(r, blocks)
 	case "shortbest":
 		scenShortBest(r, blocks)
+	case "votelater":
+		scenVoteLater(r, blocks)
 	}
 	evs := r.finish()
 	return evs, r.st
